@@ -43,7 +43,7 @@ inductive UOp where
 deriving Repr, DecidableEq
 
 inductive Exc where
-  | zeroDivision | valueError | typeError
+  | zeroDivision | valueError | typeError | overflowError
 deriving Repr, DecidableEq
 
 inductive PyRes where
@@ -108,6 +108,14 @@ def repeatSeq (s : List Nat) : Nat → List Nat
 
 def pyRepeat (s : List Nat) (n : Int) : List Nat := repeatSeq s n.toNat
 
+/-- the repeat count of `seq * n` must fit a C `ssize_t` (64-bit), else `OverflowError` — also for
+    negative counts -/
+def inSsize (n : Int) : Bool := decide (-9223372036854775808 ≤ n ∧ n < 9223372036854775808)
+
+/-- CPython: `seq * n` / `n * seq` -/
+def seqMul (mk : List Nat → Val) (s : List Nat) (n : Int) : PyRes :=
+  if inSsize n then .ok (.val (mk (pyRepeat s n))) else .raises .overflowError
+
 /-! ## CPython: `a op b` -/
 
 /-- int ∘ int (operands already known to be `int` instances; `bb` = both are `bool`) -/
@@ -159,21 +167,21 @@ def pyBin (op : Op) (a b : Val) : PyRes :=
       | _ => .raises .typeError
     | .str s, other =>
       match op, other.asInt with
-      | .mul, some n => .ok (.val (.str (pyRepeat s n)))
+      | .mul, some n => seqMul .str s n
       | .mod, _ => .notModelled
       | _, _ => .raises .typeError
     | .bytes s, other =>
       match op, other.asInt with
-      | .mul, some n => .ok (.val (.bytes (pyRepeat s n)))
+      | .mul, some n => seqMul .bytes s n
       | .mod, _ => .notModelled
       | _, _ => .raises .typeError
     | other, .str s =>
       match op, other.asInt with
-      | .mul, some n => .ok (.val (.str (pyRepeat s n)))
+      | .mul, some n => seqMul .str s n
       | _, _ => .raises .typeError
     | other, .bytes s =>
       match op, other.asInt with
-      | .mul, some n => .ok (.val (.bytes (pyRepeat s n)))
+      | .mul, some n => seqMul .bytes s n
       | _, _ => .raises .typeError
     | _, _ => .raises .typeError     -- unreachable: both int-like is handled above
 
@@ -186,7 +194,20 @@ def pyUnary (op : UOp) (a : Val) : PyRes :=
     | .pos => .ok (.val (.int x))          -- `+True` is the int 1
   | none => .raises .typeError
 
-/-! ## mypy / mypyc: the folders, guards exactly as written -/
+/-- the count `n` when `a op b` is a sequence repetition -/
+def repeatCount (op : Op) (a b : Val) : Option Int :=
+  match op, a, b with
+  | .mul, .str _, x => x.asInt
+  | .mul, .bytes _, x => x.asInt
+  | .mul, x, .str _ => x.asInt
+  | .mul, x, .bytes _ => x.asInt
+  | _, _, _ => none
+
+/-! ## mypy / mypyc: the folders, guards exactly as written
+
+`left * right` on a sequence raises `OverflowError` inside the folder when the count does not fit
+`ssize_t` (the folder has no guard: finding F24); the model returns the repeated sequence there and the
+theorems carry the hypothesis `RepeatInRange`. -/
 
 /-- `constant_fold_binary_int_op(op, left, right)`; the Python operators it applies are the `py…`
     functions above (`bb`: both operands are `bool`, for which `& | ^` return `bool`). -/
